@@ -12,7 +12,7 @@ from .sym import var
 # parameter ranges (DESIGN C03): name-suffix -> (lo, hi, lo_strict)
 PARAM_RANGES = {
     "vt": (-90.0, -30.0, False),
-    "taumax": (0.0, 1.0e4, True),
+    "taumax": (0.0, 1.0e7, True),     # ms; "all parameter values": up to hours, far beyond the default 4000
     "vx": (-20.0, 20.0, False),
     "k_minus": (0.0, 10.0, True),
 }
